@@ -116,6 +116,7 @@ inline std::string join(const std::vector<std::string>& v, const std::string& se
     std::string o; for (size_t i = 0; i < v.size(); i++) { if (i) o += sep; o += v[i]; } return o;
 }
 inline bool starts_with(const std::string& s, const std::string& p) { return s.compare(0, p.size(), p) == 0; }
+inline bool ends_with(const std::string& s, const std::string& p) { return s.size() >= p.size() && s.compare(s.size() - p.size(), p.size(), p) == 0; }
 inline bool contains(const std::string& s, const std::string& p) { return s.find(p) != std::string::npos; }
 
 inline std::string read_file(const std::string& path, bool* ok = nullptr) {
